@@ -25,6 +25,9 @@ CHECKS["C04"] = dict(
           dict(pkg="server", harness="VfC04_history2", reach=["end"], thorough=dict(skip=True),
                bounds="histories from the initial state: 2 election announcements by sessions A/B in any order with arbitrary non-zero 128-bit ids (through runElection), then one operation from either session stamped with an arbitrary id; the primary is computed by the harness with true 128-bit ordering"),
           dict(pkg="server", harness="VfC04_history3", reach=["end"], quick=dict(skip=True), bounds="as history2 with 3 announcements"),
+          dict(pkg="server", harness="VfC04_mixed4", reach=["end", "with-operation"], thorough=dict(skip=True),
+               bounds="histories from the initial state of 4 steps, each an election announcement (A/B, arbitrary non-zero 128-bit id) or one operation (A/B, arbitrary stamp), in every interleaving (accepted operation - hand-over - stale operation ...); verdict after every operation"),
+          dict(pkg="server", harness="VfC04_mixed5", reach=["end", "with-operation"], quick=dict(skip=True), bounds="as mixed4 with 5 steps"),
           dict(pkg="server", harness="VfC04_doModify3", load=["server"], quick=dict(skip=True), bounds="as doModify with a session table {A,B,C} and batches of 1-3 operations")],
     assumptions=["RIB effect observed through next-hop ADD operations in the default network instance (the RIB's own behaviour is C01's)"],
     level_text="Bounded symbolic execution of doModify/modifyEntry/checkElectionForModify from an arbitrary session table and election state: for every id triple (operation, session, server) the solver decides whether the RIB was reached.",
@@ -113,6 +116,8 @@ CHECKS["C06"] = dict(
                bounds="hand-over of the primary role while an operation is held: one scripted history with symbolic member / next-hop index"),
           dict(pkg="server", harness="VfC06_halfClose", reach=["end"], validate=0, replay_attempts=30, replay_candidates=6, opts=dict(unwind=16),
                bounds="real Server.Modify (3 goroutines) on [params, election, ADD] followed at once by a half-close; every schedule with up to 2 pre-emptive context switches at synchronisation points")]
+         + [dict(pkg="server", harness="VfC06_manyHeld300", reach=["end", "pre-built", "resolved-one"], validate=2, opts=dict(maxsteps=600000000),
+                 bounds="scale: 300 held operations (groups waiting for distinct next-hops), then one symbolic operation of any kind that may resolve any one of them")]
          + _rib(["C06:", "C02:no-held-operation-is-resolvable", "C02:held-operation-kept"], [(h, _B[h]) for h in ("VfRIB_q2", "VfRIB_q3", "VfRIB_qx2")], _RT),
     assumptions=["response streams are observed at doModify's result channel (the result pump of Modify forwards them unchanged; its scheduling is C10/C11's subject)"],
     level_text="Bounded symbolic execution of doModify + RIB from symbolic requests: per-id verdict counting over the emitted results, RIB-before-FIB order, and held-set bookkeeping (answered xor held) decided for all symbolic keys/references/instance names.",
@@ -144,7 +149,7 @@ CHECKS["C07"] = dict(
 
 CHECKS["C13"] = dict(
     runs=[dict(pkg="client", harness="VfC13_accounting_q", reach=["end", "pre-built", "await-ok", "await-errors"], thorough=dict(skip=True),
-               bounds="client in RIB-ack or FIB-ack mode after StartSending; 0-2 operations queued (symbolic ids - equal ids included -, ADD/REPLACE, IPv4/group/MPLS, symbolic key), handshake answered or not; ONE response of any shape: 1-2 results (symbolic id, status in {FAILED,RIB_PROGRAMMED,FIB_PROGRAMMED,FIB_FAILED,UNSET}), election, session parameters, or mixed content; then the convergence check"),
+               bounds="client in RIB-ack or FIB-ack mode after StartSending; 0-2 operations queued in separate requests or in ONE request (symbolic ids - equal ids included -, ADD/REPLACE, IPv4/group/MPLS, symbolic key), handshake answered or not; ONE response of any shape: 1-2 results (symbolic id, status in {FAILED,RIB_PROGRAMMED,FIB_PROGRAMMED,FIB_FAILED,UNSET}), election, session parameters, or mixed content; then the convergence check"),
           dict(pkg="client", harness="VfC13_accounting_t", reach=["end", "pre-built", "await-ok", "await-errors"], quick=dict(skip=True),
                bounds="as accounting_q with all five entry kinds, all three operation types and TWO consecutive responses (RIB-before-FIB sequences, duplicate terminal results, results after completion)")],
     assumptions=["responses are delivered to handleModifyResponse as the receiver goroutine does (errors recorded with addReadErr); goroutine scheduling of Connect is C14's subject",
